@@ -6,7 +6,11 @@
 //!   begin mem max=<n> bytes=<n>|none policy=lru|lfu|fifo|random|ttl dttl=long|short
 //!   begin disk dttl=long|short
 //!   put <key> <hex> ev=…   putttl <key> <hex> long|short ev=…   get|contains|remove <key>
-//!   clear   size   stats   reopen
+//!   clear   size   stats   reopen   cleanup (memc only)
+//!   begin memc …  = MemoryCache::new_with_cleanup (cleanup_interval 2 ms). The cache futures never
+//!   yield, so on the current-thread runtime the background task runs only while the harness
+//!   awaits: `cleanup` = await a real 12 ms sleep (>= 1 tick of the task), nothing else.
+//!   stats answers `<entries> <bytes> <get_count> <hit_count> <miss_count>`.
 //! Clocks: both caches read `std::time::{Instant, SystemTime}` (not tokio time), so TTL classes
 //! are produced with real time: `long` = 1 h, `short` = 0 ns … 1 ms followed by a real sleep of
 //! more than three times that before the next operation. Between any two operations the harness
@@ -25,6 +29,7 @@ use std::time::{Duration, Instant, SystemTime};
 use verif_harness::*;
 
 const LONG: Duration = Duration::from_secs(3600);
+const CLEANUP_INTERVAL: Duration = Duration::from_millis(2);
 const SHORTS: [Duration; 4] = [Duration::ZERO, Duration::from_nanos(1000), Duration::from_micros(50), Duration::from_millis(1)];
 
 #[derive(Clone, Debug, PartialEq)]
@@ -38,6 +43,7 @@ enum Op {
     Size,
     Stats,
     Reopen,
+    Cleanup,
     Raw(String),
 }
 
@@ -48,6 +54,8 @@ struct Cfg {
     bytes: Option<usize>,
     policy: EvictionPolicy,
     dshort: bool,
+    /// `new_with_cleanup` instead of `new` (memory cache only)
+    cleanup: bool,
 }
 
 fn pol_name(p: &EvictionPolicy) -> &'static str {
@@ -67,13 +75,13 @@ impl Cfg {
             format!("begin disk dttl={d}")
         } else {
             let b = self.bytes.map_or("none".to_string(), |b| b.to_string());
-            format!("begin mem max={} bytes={} policy={} dttl={}", self.max, b, pol_name(&self.policy), d)
+            format!("begin {} max={} bytes={} policy={} dttl={}", if self.cleanup { "memc" } else { "mem" }, self.max, b, pol_name(&self.policy), d)
         }
     }
     fn parse(toks: &[&str]) -> Option<Cfg> {
         let kv = |t: &str, p: &str| t.strip_prefix(p).map(|s| s.to_string());
         match toks {
-            ["begin", "mem", mx, by, pol, dt] => {
+            ["begin", m @ ("mem" | "memc"), mx, by, pol, dt] => {
                 let max = kv(mx, "max=")?.parse().ok()?;
                 let b = kv(by, "bytes=")?;
                 let bytes = if b == "none" { None } else { Some(b.parse().ok()?) };
@@ -86,11 +94,11 @@ impl Cfg {
                     _ => return None,
                 };
                 let dshort = match kv(dt, "dttl=")?.as_str() { "short" => true, "long" => false, _ => return None };
-                Some(Cfg { disk: false, max, bytes, policy, dshort })
+                Some(Cfg { disk: false, max, bytes, policy, dshort, cleanup: *m == "memc" })
             }
             ["begin", "disk", dt] => {
                 let dshort = match kv(dt, "dttl=")?.as_str() { "short" => true, "long" => false, _ => return None };
-                Some(Cfg { disk: true, max: 0, bytes: None, policy: EvictionPolicy::Lru, dshort })
+                Some(Cfg { disk: true, max: 0, bytes: None, policy: EvictionPolicy::Lru, dshort, cleanup: false })
             }
             _ => None,
         }
@@ -110,6 +118,7 @@ fn parse_op(line: &str) -> Op {
         ["size"] => Some(Op::Size),
         ["stats"] => Some(Op::Stats),
         ["reopen"] => Some(Op::Reopen),
+        ["cleanup"] => Some(Op::Cleanup),
         _ => None,
     };
     r.unwrap_or_else(|| Op::Raw(line.to_string()))
@@ -154,6 +163,10 @@ struct Case {
     lines: Vec<String>,
     reported: BTreeSet<String>,
     nontrivial: BTreeSet<&'static str>,
+    /// the oracle's own count of get calls / of get calls that returned a value since the last
+    /// clear (or re-creation): what stats().get_count / hit_count must report
+    o_gets: u64,
+    o_hits: u64,
 }
 
 fn temp_root() -> tempfile::TempDir {
@@ -172,6 +185,7 @@ impl Case {
         let mut c = Case {
             rng_short: salt, cfg, rt, cache: None, dir: None, sub, epoch: 0, refmap: BTreeMap::new(),
             last_put: BTreeMap::new(), lines: vec![], reported: BTreeSet::new(), nontrivial: BTreeSet::new(),
+            o_gets: 0, o_hits: 0,
         };
         let line = c.cfg.line();
         let resp = match c.open() {
@@ -195,7 +209,14 @@ impl Case {
             let mut mc = MemoryCacheConfig::new().with_max_entries(self.cfg.max).with_eviction_policy(self.cfg.policy.clone());
             mc.max_memory_bytes = self.cfg.bytes;
             mc.default_ttl = Some(if self.cfg.dshort { SHORTS[3] } else { LONG });
-            self.cache = Some(Cache::Mem(MemoryCache::new(mc).map_err(|_| ())?));
+            let c = if self.cfg.cleanup {
+                mc.cleanup_interval = CLEANUP_INTERVAL;
+                let _g = self.rt.enter(); // tokio::spawn inside new_with_cleanup needs a runtime context
+                MemoryCache::new_with_cleanup(mc)
+            } else {
+                MemoryCache::new(mc)
+            };
+            self.cache = Some(Cache::Mem(c.map_err(|_| ())?));
         }
         Ok(())
     }
@@ -223,6 +244,9 @@ impl Case {
     // ---- side-effect-free observations used by the oracle and for the `ev=` hint
     fn n_size(&self) -> usize {
         self.rt.block_on(self.c().size()).unwrap_or(usize::MAX)
+    }
+    fn n_metrics(&self) -> (u64, u64, u64) {
+        self.rt.block_on(self.c().stats()).map(|st| (st.get_count, st.hit_count, st.miss_count)).unwrap_or((u64::MAX, u64::MAX, u64::MAX))
     }
     fn n_stats(&self) -> (usize, usize) {
         self.rt.block_on(self.c().stats()).map(|st| (st.entry_count, st.memory_usage_bytes)).unwrap_or((usize::MAX, usize::MAX))
@@ -310,7 +334,7 @@ impl Case {
         s.tally(match op {
             Op::Put(..) => "op.put", Op::PutTtl(_, _, true) => "op.putttl.short", Op::PutTtl(_, _, false) => "op.putttl.long",
             Op::Get(_) => "op.get", Op::Contains(_) => "op.contains", Op::Remove(_) => "op.remove", Op::Clear => "op.clear",
-            Op::Size => "op.size", Op::Stats => "op.stats", Op::Reopen => "op.reopen", Op::Raw(_) => "op.raw",
+            Op::Size => "op.size", Op::Stats => "op.stats", Op::Reopen => "op.reopen", Op::Cleanup => "op.cleanup", Op::Raw(_) => "op.raw",
         });
         if self.cache.is_none() {
             let l = match op { Op::Raw(l) => l.clone(), o => op_line(o) };
@@ -330,6 +354,8 @@ impl Case {
                     Err(_) => "err:io".to_string(),
                 };
                 self.emit(s, format!("get {k}"), resp);
+                self.o_gets += 1;
+                if matches!(r, Ok(Some(_))) { self.o_hits += 1; }
                 let re = self.refmap.get(k).cloned();
                 match (&r, &re) {
                     (Ok(Some(v)), Some(e)) if !e.short && e.val[..] == v[..] => { s.tally("get.hit"); }
@@ -386,6 +412,8 @@ impl Case {
                 let r = self.rt.block_on(self.c().clear());
                 self.emit(s, "clear".into(), if r.is_ok() { "ok" } else { "err" }.into());
                 self.refmap.clear();
+                self.o_gets = 0;
+                self.o_hits = 0;
             }
             Op::Size => {
                 let n = self.n_size();
@@ -393,7 +421,35 @@ impl Case {
             }
             Op::Stats => {
                 let (n, b) = self.n_stats();
-                self.emit(s, "stats".into(), format!("{n} {b}"));
+                let (g, h, m) = self.n_metrics();
+                self.emit(s, "stats".into(), format!("{n} {b} {g} {h} {m}"));
+                // O: the hit / miss figures are what the gets of this instance actually answered
+                if g != self.o_gets || h != self.o_hits || m != self.o_gets - self.o_hits {
+                    let (og, oh) = (self.o_gets, self.o_hits);
+                    self.fail(s, "stats-hit-miss", format!("stats() reports get_count {g}, hit_count {h}, miss_count {m} but since the last clear / re-creation {og} gets were issued and {oh} of them returned a value"));
+                }
+            }
+            Op::Cleanup => {
+                if !self.cfg.cleanup {
+                    self.emit(s, "cleanup".into(), "bad-op".into());
+                    return;
+                }
+                // let the background task run: at least one tick of its interval elapses
+                self.rt.block_on(async { tokio::time::sleep(CLEANUP_INTERVAL * 6).await });
+                self.emit(s, "cleanup".into(), "ok".into());
+                self.nontrivial.insert("cleanup");
+                // O: after a tick of the cleanup task no ended-TTL entry is left in the cache
+                let pending: Vec<usize> = self.refmap.iter().filter(|(_, e)| e.short).map(|(k, _)| *k).collect();
+                if !pending.is_empty() {
+                    let n = self.n_size();
+                    let p = self.live_present();
+                    if n > p.len() {
+                        self.fail(s, "mem-cleanup-left-expired", format!("after a tick of the background cleanup task size() = {n} but only {} entries are retrievable ({} ended-TTL entries were waiting): the task did not remove them / did not adjust the counters", p.len(), pending.len()));
+                    } else {
+                        for k in pending { self.refmap.remove(&k); }
+                        self.nontrivial.insert("cleanup-swept");
+                    }
+                }
             }
             Op::Reopen => {
                 if !disk {
@@ -402,6 +458,8 @@ impl Case {
                 }
                 self.cache = None;
                 self.epoch += 1;
+                self.o_gets = 0;
+                self.o_hits = 0;
                 let ok = self.open().is_ok();
                 self.emit(s, "reopen".into(), if ok { "ok" } else { "err" }.into());
                 self.nontrivial.insert("reopen");
@@ -475,6 +533,7 @@ fn op_line(op: &Op) -> String {
         Op::Size => "size".into(),
         Op::Stats => "stats".into(),
         Op::Reopen => "reopen".into(),
+        Op::Cleanup => "cleanup".into(),
         Op::Raw(l) => l.clone(),
     }
 }
@@ -510,6 +569,7 @@ fn gen_case(rng: &mut Rng, s: &mut Session, disk: bool, nops: usize) {
         bytes: if disk { None } else { *rng.pick(&byts) },
         policy: if disk { EvictionPolicy::Lru } else { rng.pick(&pols).clone() },
         dshort: rng.chance(1, 8),
+        cleanup: !disk && rng.chance(1, 4),
     };
     let sub = if disk && rng.chance(1, 2) { Some(rng.range(1, 2) as usize) } else { None };
     // key population: usually larger than the capacity
@@ -532,7 +592,8 @@ fn gen_case(rng: &mut Rng, s: &mut Session, disk: bool, nops: usize) {
                 10..=12 => Op::Contains(k),
                 13..=15 => Op::Remove(k),
                 16 => if rng.chance(1, 3) { Op::Clear } else { Op::Get(k) },
-                17 | 18 => Op::Size,
+                17 => Op::Size,
+                18 => if cfg.cleanup { Op::Cleanup } else { Op::Size },
                 19 | 20 => Op::Stats,
                 _ => Op::Reopen,
             }
@@ -541,17 +602,62 @@ fn gen_case(rng: &mut Rng, s: &mut Session, disk: bool, nops: usize) {
     }
     // closing sweep: every key is read, then the figures are asked for explicitly
     if disk && rng.chance(1, 2) { case.apply(s, &Op::Reopen); }
+    if cfg.cleanup { case.apply(s, &Op::Cleanup); case.apply(s, &Op::Size); }
     for k in 0..pop { case.apply(s, &Op::Get(k)); }
     case.apply(s, &Op::Size);
     case.apply(s, &Op::Stats);
     case.finish(s);
 }
 
+/// `validate mem <max> <bytes|none> <cleanup_zero>` / `validate disk <max_files> <bytes|none>
+/// <cleanup_zero> <sync_zero> <use_subdirs> <levels>`: the real `validate()` (stateless); O: the
+/// constructor accepts exactly the configurations `validate()` accepts.
+fn validate_line(s: &mut Session, line: &str, toks: &[&str]) {
+    let bytes = |b: &str| -> Option<Option<usize>> { if b == "none" { Some(None) } else { b.parse().ok().map(Some) } };
+    let flag = |f: &str| -> Option<bool> { match f { "0" => Some(false), "1" => Some(true), _ => None } };
+    let dur = |zero: bool| if zero { Duration::ZERO } else { Duration::from_millis(7) };
+    let r: Option<(bool, bool)> = match toks {
+        ["validate", "mem", mx, b, cz] => (|| {
+            let mut c = MemoryCacheConfig::new();
+            c.max_entries = mx.parse().ok()?;
+            c.max_memory_bytes = bytes(b)?;
+            c.cleanup_interval = dur(flag(cz)?);
+            let v = c.validate().is_ok();
+            Some((v, MemoryCache::<RibbitKey>::new(c).is_ok()))
+        })(),
+        ["validate", "disk", mf, b, cz, sz, sub, lv] => (|| {
+            let d = temp_root();
+            let mut c = DiskCacheConfig::new(d.path().join("cache"));
+            c.max_files = mf.parse().ok()?;
+            c.max_disk_bytes = bytes(b)?;
+            c.cleanup_interval = dur(flag(cz)?);
+            c.sync_interval = dur(flag(sz)?);
+            c.use_subdirectories = flag(sub)?;
+            c.subdirectory_levels = lv.parse().ok()?;
+            let v = c.validate().is_ok();
+            Some((v, DiskCache::<RibbitKey>::new(c).is_ok()))
+        })(),
+        _ => None,
+    };
+    match r {
+        None => s.line(line, "bad-op"),
+        Some((v, n)) => {
+            s.line(line, if v { "ok" } else { "err:config" });
+            s.tally(if v { "validate.ok" } else { "validate.err" });
+            if v != n {
+                s.oracle_fail("config-validate-new-mismatch", &format!("validate() says {v} but the constructor says {n} for `{line}`"), &[line.to_string()]);
+            }
+        }
+    }
+}
+
 fn run_script(s: &mut Session, lines: &[String]) {
     let mut cur: Option<Case> = None;
     for l in lines {
         let toks: Vec<&str> = l.split(' ').filter(|t| !t.is_empty()).collect();
-        if toks.first() == Some(&"begin") {
+        if toks.first() == Some(&"validate") {
+            validate_line(s, l, &toks);
+        } else if toks.first() == Some(&"begin") {
             if let Some(c) = cur.take() { c.finish(s); }
             match Cfg::parse(&toks) {
                 // sub-directory layout is not part of the protocol: replay without
@@ -576,6 +682,35 @@ fn directed(s: &mut Session) {
         vec!["begin mem max=3 bytes=none policy=lru dttl=long".into(), "frobnicate 1".into(), "reopen".into(), "get x".into()],
     ];
     for sc in scripts { run_script(s, &sc); }
+    // put_with_ttl over an entry whose TTL has ended (not yet swept): one entry, the new size, the
+    // new value; then hit / miss figures. Memory (with and without cleanup task) and disk.
+    for b in ["begin mem max=3 bytes=none policy=lru dttl=long", "begin memc max=3 bytes=40 policy=fifo dttl=long", "begin disk dttl=long"] {
+        let sc: Vec<String> = [b, "putttl 1 aabbccdd short ev=auto", "stats", "putttl 1 0102030405060708 long ev=auto", "stats", "get 1", "get 2",
+            "putttl 1 ee short ev=auto", "putttl 1 ffff short ev=auto", "size", "get 1", "stats", "put 2 0909 ev=auto", "putttl 2 - short ev=auto",
+            "putttl 2 0a0b0c long ev=auto", "get 2", "stats", "clear", "stats", "get 2", "stats"].iter().map(|x| x.to_string()).collect();
+        run_script(s, &sc);
+    }
+    // the background cleanup task: ended-TTL entries nobody looks at, then a tick of the task
+    for pol in ["lru", "lfu", "fifo", "random", "ttl"] {
+        let sc: Vec<String> = [&format!("begin memc max=4 bytes=none policy={pol} dttl=long")[..], "cleanup", "putttl 1 aabbcc short ev=auto", "put 2 0102 ev=auto",
+            "putttl 3 - short ev=auto", "size", "cleanup", "size", "stats", "get 1", "get 2", "get 3", "putttl 2 0708 short ev=auto", "cleanup", "cleanup", "stats",
+            "put 5 01 ev=auto", "put 6 02 ev=auto", "put 7 03 ev=auto", "put 8 04 ev=auto", "putttl 9 05 short ev=auto", "cleanup", "size", "get 9", "get 8"].iter().map(|x| x.to_string()).collect();
+        run_script(s, &sc);
+    }
+    run_script(s, &["begin mem max=3 bytes=none policy=lru dttl=long".to_string(), "cleanup".to_string()]);
+    run_script(s, &["begin disk dttl=long".to_string(), "cleanup".to_string()]);
+    // configuration validation: the whole small grid
+    let mut sc = vec![];
+    for mx in [0usize, 1, 2, 1000] { for b in ["none", "0", "1", "4096"] { for cz in [0, 1] {
+        sc.push(format!("validate mem {mx} {b} {cz}"));
+    } } }
+    for mf in [0usize, 1, 50] { for b in ["none", "0", "1"] { for cz in [0, 1] { for sz in [0, 1] { for sub in [0, 1] { for lv in [0usize, 1, 3] {
+        sc.push(format!("validate disk {mf} {b} {cz} {sz} {sub} {lv}"));
+    } } } } } }
+    sc.push("validate mem x none 0".into());
+    sc.push("validate disk 1 none 0 0 2 1".into());
+    run_script(s, &sc);
+    s.case(Some(&sc.join("\n")));
     // every policy × small capacities: fill past capacity with distinct keys, touching some
     for pol in ["lru", "lfu", "fifo", "random", "ttl"] {
         for max in [1usize, 2, 3, 10, 11] {
